@@ -735,6 +735,37 @@ def run(ctx):
         by_owner = {o: m for o, m in zip(owners, model)}
 
         disagreements, failures = [], []
+        # ---- the burst (conservation) legs against the model: the actor fed the same adds, in ANY order (theorem
+        # C11_actor_conserves_every_interleaving), shows per key exactly what the real actor showed
+        bexprs, bown = [], []
+        for i, (h, r) in enumerate(zip(hs, results)):
+            if h.get("race"):
+                for sn in r.get("snapshots", []):
+                    b = sn.get("burst")
+                    if b:
+                        bexprs.append("burst_model %s %d %d" % (cb("burst-%s-" % sn["label"]), b["keys"], b["threads"]))
+                        bown.append((i, sn))
+        if bexprs:
+            bprelude = PRELUDE + """
+Definition burst_model (prefix : bytes) (keys threads : nat) :=
+  let mk := fun k : nat => {| sm_user := prefix ++ dec (N.of_nat k); sm_groups := [[103]]; sm_client_ip := [49; 50; 55; 46; 48; 46; 48; 46; 49];
+                              sm_ip := [49; 54; 57; 46; 50; 53; 52; 46; 49; 54; 57; 46; 50; 53; 52]; sm_port := 80;
+                              sm_path := [47; 98; 117; 114; 115; 116; 47; 101; 120; 101]; sm_cmd := [101; 120; 101; 32; 45; 45; 98; 117; 114; 115; 116];
+                              sm_status := status_text 403 |} in
+  map entry_code (snd (publish key_string (arun key_string agent0
+     (flat_map (fun k => repeat (AddFailed (mk k)) threads) (seq 0 keys))))).
+"""
+            bmodel = vplib.coq_eval(ctx, "From GPA Require Import Summary.\nOpen Scope N_scope.", bexprs, prelude=bprelude, shard=1, name="burst")
+            for (i, sn), ents in zip(bown, bmodel):
+                me = model_entries(ents)
+                ie = {}
+                for e in (sn.get("summary") or {}).get("failed") or []:
+                    if str(e.get("userName", "")).startswith("burst-%s-" % sn["label"]):
+                        ie[entry_tuple(e)] = (e["count"], sorted(e.get("userGroups") or []))
+                if me != ie:
+                    diff = sorted(k for k in set(me) | set(ie) if me.get(k) != ie.get(k))[:5]
+                    disagreements.append({"case": {"burst": sn["burst"], "label": sn["label"]},
+                                          "model": {k[0]: me.get(k) for k in diff}, "impl": {k[0]: ie.get(k) for k in diff}})
         stats = {"requests": 0, "status_403": 0, "relayed_recorded(audit)": 0, "relayed": 0, "entries": 0, "histories_with_clear": 0,
                  "histories_with_rule_change": 0, "status_json_reads": 0, "f8_histories": 0}
         for i, (h, r) in enumerate(zip(hs, results)):
